@@ -61,6 +61,10 @@ def structured_long():
     out.append(["33.33333", "33.33333", "33.33334"])
     out.append(["1234567", "7654321", "1111111"])
     out.append(["999999.5", "1000000.4", "0.1"])
+    # tiny totals with many significant digits (anything that rounds or rescales the running totals shows here)
+    out.append(["0.0000000010000004", "0.000000002"])
+    out.append(["0.00000000123456789", "0.000000003", "0.0000000025"])
+    out.append(["0.000000001000000123", "0.000000001", "0.000000001000000456"])
     return out
 
 
